@@ -776,6 +776,25 @@ def c19_check(prop, tier, seed, replay):
             tot["distinct"] += st["distinct"]
             tot["generated"] += st["generated"]
     log(f"[{prop}] TLC Election (3 configurations): {tot['distinct']} distinct states, {tot['generated']} transitions, {time.time()-t1:.0f}s")
+    apalache = None
+    if tier == "thorough" and not os.environ.get("VERIF_DEV_SKIP_MC"):
+        # unbounded datagram histories: IndInv is inductive, and every step from an IndInv state satisfies C19
+        # (7 nodes, every quorum 1..7); the two probes must be violated (a step into each role exists)
+        ta = time.time()
+        apalache = {}
+        for init, inv, length, expect in (("EInit", "IndInv", 0, True), ("IndInit", "IndInv", 1, True), ("IndInit", "StepInv", 1, True),
+                                          ("IndInit", "NeverLeaderStep", 1, False), ("IndInit", "NeverFollowerStep", 1, False)):
+            rc, out = vlib.sh(["timeout", "3000", "apalache-mc", "check", "--cinit=ConstInit", f"--init={init}", "--next=IndNext", f"--inv={inv}",
+                               f"--length={length}", "--out-dir=" + os.path.join(d, "apalache"), "Election_ind.tla"], cwd=d, timeout=3100)
+            ok = "The outcome is: NoError" in out
+            bad = "The outcome is: Error" in out
+            if not ok and not bad:
+                raise ToolError("apalache gave no verdict:\n" + out[-2000:])
+            if ok != expect:
+                raise ToolError(f"apalache: {inv} from {init} " + ("holds, but the probe must be violated (vacuous induction)" if ok else "is violated on Election.tla") + "\n" + out[-2500:])
+            apalache[f"{init}/{inv}"] = "holds" if ok else "violated (expected)"
+        shutil.rmtree(os.path.join(d, "apalache"), ignore_errors=True)
+        log(f"[{prop}] Apalache: IndInv inductive, StepInv holds from every IndInv state (7 nodes, quorums 1..7), {time.time()-ta:.0f}s")
     # 2. real orchestrator processes against scripted peers
     t2 = time.time()
     cfgs = orch.gen_configs(rnd, tier)
@@ -795,7 +814,7 @@ def c19_check(prop, tier, seed, replay):
         f"{refused} processes refused their configuration, {time.time()-t2:.0f}s")
     cov = {"states": max(1, tot["distinct"]), "transitions": max(1, tot["generated"]),
            "traces_validated_against_impl": len(cfgs) * per, "samples": [{"config": work[0][1], "steps": work[0][2][0]}], "exhaustive": False,
-           "trace_records_validated": nev, "server_starts_observed": starts,
+           "trace_records_validated": nev, "server_starts_observed": starts, "apalache": apalache,
            "explanation": "TLC exhaustive on Election.tla (phases of the election code, inbox, timeouts as free steps) with C19 as step "
                           "properties; real orchestrator processes (cluster sizes 1-7, default and configured quorums) against scripted UDP "
                           "peers and a stub server executable, behaviour explained by TLC with receive/timeout/heartbeat as inferred steps"}
